@@ -3,7 +3,7 @@ Theorems: coq/Properties/C06.v (except lists regenerated from the source; modell
 diagnosed classes; caret arithmetic; command dispatcher).  This module is the other half: the outcome
 predicate itself on the implementation for every function x every kind of value, all short strings,
 token soups, well-formed programs, `%` commands and the CLI exit code."""
-import itertools, json, os, random, subprocess, sys
+import itertools, json, os, random, re, subprocess, sys
 import common as C
 from props import c01, c05
 
@@ -134,6 +134,29 @@ def check_marker(o, d):
     return None
 
 
+NUM_LIT = re.compile(r"0[bodx][0-9A-Fa-f]+|(\d+)(?:\.(\d*))?(?:[eE]([+-]?\d+))?|\.(\d+)(?:[eE]([+-]?\d+))?")
+AMPLIFIERS = re.compile(r"\^|!|\.\.|\b(?:range|factorial|choose|C|perm|P|sample|repeat|linspace)\s*\(")
+
+
+def small_input(text):
+    """C06 promises promptness only 'for inputs whose literals, exponents, factorial arguments and range lengths are
+    small'.  A time-out is therefore held against the implementation only when the text is plainly small: every numeric
+    literal has at most 4 significant places and a scientific exponent within +-4, at most one size-amplifying
+    construct (^, !, .., range/factorial/choose/sample...) and at most one product.  Anything else is counted, with
+    examples, as slow-on-large-argument and not reported."""
+    for m in NUM_LIT.finditer(text):
+        lit = m.group(0)
+        if lit[:2].lower() in ("0b", "0o", "0d", "0x"):
+            if len(lit) > 6:
+                return False
+            continue
+        digs = len((m.group(1) or "").lstrip("0")) + len(m.group(2) or m.group(4) or "")
+        ex = m.group(3) or m.group(5) or "0"
+        if digs > 4 or abs(int(ex)) > 4:
+            return False
+    return len(AMPLIFIERS.findall(text)) <= 1 and text.count("*") <= 1
+
+
 def sig_of(text, why):
     head = text.split("(")[0].strip()[:12] if text and text[0].isalpha() else "expr"
     return dict(kind="outcome", why=why[:60], head=head)
@@ -220,11 +243,14 @@ def run(ctx):
     obs = C.run_impl(impl_case, [c[1] for c in cases], ctx["rundir"], limit=5.0 if tier == "quick" else 10.0,
                      env_extra={"MPLBACKEND": "Agg"})
     hist, fam, nontrivial, samples, markers = {}, {}, 0, [], 0
+    slow_examples = []
     for (family, text, strict), o in zip(cases, obs):
         fam[family.split(":")[0]] = fam.get(family.split(":")[0], 0) + 1
-        if o.get("hung") and "10^30" in text:
+        if o.get("hung") and ("10^30" in text or not small_input(text)):
             # the property promises promptness only for small literals, exponents, factorial arguments and range lengths
-            hist["slow-on-huge-argument"] = hist.get("slow-on-huge-argument", 0) + 1
+            hist["slow-on-large-argument"] = hist.get("slow-on-large-argument", 0) + 1
+            if len(slow_examples) < 12:
+                slow_examples.append(text[:80])
             continue
         if o.get("hung") and not strict:
             # plot-valued calls reach matplotlib (first import builds a font cache, seconds on a fresh machine):
@@ -294,7 +320,7 @@ def run(ctx):
     rep.coverage.update(dict(
         evaluations=len(cases) + len(lines) + len(cli), distinct_nontrivial=nontrivial,
         rule="every registered function/operator x argument tuples over %d representative values of every kind (exhaustive for arity<=1 and infix operators, sampled otherwise), wrong arities and keywords, every kind tagged/converted/in arrays, intervals, ranges, comprehensions (%d); all strings of length<=2 over a %d-symbol alphabet and length 3 (reduced alphabet in quick); token soups; well-formed arithmetic/combinatoric programs; every %% command line shape; CLI exit codes; non-trivial = distinct input that produced a value or a positioned diagnostic" % (len(VALUES), n_calls, len(ALPHABET)),
-        exhaustive=False, samples=samples, outcome_histogram=hist, families=fam, positioned_diagnostics_checked=markers,
+        exhaustive=False, samples=samples, outcome_histogram=hist, slow_on_large_argument_examples=slow_examples, families=fam, positioned_diagnostics_checked=markers,
         command_lines=len(lines), cli_runs=len(cli), traces_validated_against_impl=len(cases), disagreements=disagreements))
     rep.assumptions += ["plot results: rendering (matplotlib) is outside the model; for plot-valued calls only escapes and hangs are reported",
                         "per-input wall-clock limit stands in for 'returns promptly'; memory exhaustion is not observed"]
